@@ -33,6 +33,13 @@ int main(int argc, char** argv)
     {
         auto doc = js::load(a.replay);
         const js::Value& w = doc.has("witness") ? doc.at("witness") : doc;
+        if (w.s("type") == "CopyOnly")
+        {
+            fv::Explorer<fv::CopyOnly> ex;
+            ex.cfg.owner = "C06";
+            ex.cfg.type_name = "CopyOnly";
+            return ex.replay(w);
+        }
         if (w.s("type") == "MoveOnly")
         {
             fv::Explorer<fv::MoveOnly> ex;
@@ -50,13 +57,14 @@ int main(int argc, char** argv)
     double t0 = mc::now_s();
     run<fv::Tracked>(a, "Tracked", cap, total, exhaustive);
     run<fv::MoveOnly>(a, "MoveOnly", cap, total, exhaustive);
+    run<fv::CopyOnly>(a, "CopyOnly", std::min(cap, 4), total, exhaustive);
     total.counters["bound_max_capacity"] = cap;
     total.counters["bound_values"] = 2;
     total.counters["wall_ms"] = static_cast<long long>((mc::now_s() - t0) * 1000);
     if (!exhaustive)
         total.count("capped");
-    total.notes["rule"] = "BFS to a fixpoint over concrete states (capacity, size, raw contents of all slots) of fixed_vector<Tracked> and "
-                          "fixed_vector<MoveOnly> with capacities 0..bound over 2 values; every operation of the alphabet with every "
+    total.notes["rule"] = "BFS to a fixpoint over concrete states (capacity, size, raw contents of all slots) of fixed_vector<Tracked>, "
+                          "fixed_vector<MoveOnly> and fixed_vector<CopyOnly (not move-assignable)> with capacities 0..bound over 2 values; every operation of the alphabet with every "
                           "in-range and out-of-range argument from every state; copy/move assignment over all pairs of abstract-state "
                           "representatives; then every element-operation throw position of every (state, operation); every transition "
                           "is distinct and non-trivial (distinct (state, operation, fault position))";
